@@ -933,3 +933,77 @@ func TestRaceReadersDuringUpdates(t *testing.T) {
 		ev.Case(fmt.Sprintf("readers-during-updates/%d/%d/%d/%v", nkeys, nupd, nreaders, upd), true, "readers-during-updates")
 	})
 }
+
+// A full iteration of a large trie (more than 65 536 handler calls) while one writer updates keys in a fixed order: what
+// the iteration yields is the content at one moment, so the keys it shows with their new value are a prefix of the
+// writer's order. Thorough tier only (the trie takes a while to build under the race detector).
+func TestRaceBigIterationUnderAWriter(t *testing.T) {
+	if !ev.Thorough() {
+		ev.Case("big-iteration/skipped-in-quick", false, "big-iteration-thorough-only")
+		return
+	}
+	seed := ev.SeedFor("TestRaceBigIterationUnderAWriter")
+	n := 40000 + int(seed%2000)
+	mpt := mptkit.NewTrie(util.NewMemoryNodeDB(), int64(seed%2), nil)
+	key := func(i int) string { return fmt.Sprintf("%08x", uint32(i)*2654435761) }
+	for i := 0; i < n; i++ {
+		if _, err := mpt.Insert(util.Path(key(i)), mptkit.Val([]byte{0, byte(i), byte(i >> 8)})); err != nil {
+			t.Fatalf("HARNESS: %v", err)
+		}
+	}
+	order := map[string]int{}
+	nw := 3000
+	for j := 0; j < nw; j++ {
+		order[key((j*7919)%n)] = j
+	}
+	var wg sync.WaitGroup
+	start := make(chan struct{})
+	wg.Add(1)
+	go func() {
+		defer wg.Done()
+		<-start
+		for j := 0; j < nw; j++ {
+			if _, err := mpt.Insert(util.Path(key((j*7919)%n)), mptkit.Val([]byte{1, byte(j), byte(j >> 8)})); err != nil {
+				return
+			}
+		}
+	}()
+	for round := 0; round < 3; round++ {
+		if round == 1 {
+			close(start)
+		}
+		updated := map[int]bool{}
+		total := 0
+		err := mpt.Iterate(context.Background(), func(ctx context.Context, path util.Path, k util.Key, node util.Node) error {
+			if vn, ok := node.(*util.ValueNode); ok {
+				total++
+				if b := vn.GetValueBytes(); len(b) > 0 && b[0] == 1 {
+					if j, ok := order[string(path)]; ok {
+						updated[j] = true
+					}
+				}
+			}
+			return nil
+		}, util.NodeTypeValueNode|util.NodeTypeLeafNode|util.NodeTypeFullNode|util.NodeTypeExtensionNode)
+		if err != nil {
+			t.Fatalf("iteration %d of a trie of %d keys under a writer: %v", round, n, err)
+		}
+		if total != n {
+			t.Fatalf("iteration %d under a writer yields %d values, the trie has %d keys at every moment", round, total, n)
+		}
+		max := -1
+		for j := range updated {
+			if j > max {
+				max = j
+			}
+		}
+		// keys are updated in the order j = 0, 1, 2, ...; several j may name the same key (then the later one shows)
+		for j := 0; j <= max; j++ {
+			if !updated[j] && order[key((j*7919)%n)] == j {
+				t.Fatalf("iteration %d shows the writer's update %d but not its earlier update %d: not the content of any one moment", round, max, j)
+			}
+		}
+	}
+	wg.Wait()
+	ev.Case(fmt.Sprintf("big-iteration/%d", n), true, "iteration-of-40000-keys-under-a-writer")
+}
